@@ -53,6 +53,10 @@ def main(tier):
     for d in ["\\_\\_hi\n", "a \\* b \\_ c\n", "1\\. x\n", "\\# h\n", "plain\n", "- \\- a\n\n> \\> b\n", "x \\[y\\] z\n", "```\ncode\n```\n\n\\~ t\n"]:
         for extra in ({}, {"sourcepos": True}, {"width": 20}, {"strikethrough": True, "table": True}):
             cases.append((d, dict(extra, experimental_minimize_commonmark=True)))
+    # fenced blocks whose language token the highlighter does not know (the syntax is then guessed from the first line)
+    for d in ["```myscript\nplain text\n```\n", "```x\nno shebang\n```\n", "```myscript\n#!/bin/bash\nls\n```\n\n```myscript\nplain\n```\n"]:
+        for extra in ({}, {"github_pre_lang": True}, {"full_info_string": True, "sourcepos": True}):
+            cases.append((d, dict(extra)))
     lines = []
     for d, o in cases:
         r = rng.random()
